@@ -20,8 +20,10 @@ RULE = (
     "scf/bbl, constructed so that the Standing bubble point exceeds 50 psia) and 2..14 pressures in "
     "[15, 2.5 p_b] that always include p_b itself, p_b(1 +- 1e-9), the float neighbours of p_b, and points on "
     "both sides; the ordering and inverse relations are checked on scalar calls and again through the array "
-    "branches on a float64 grid and on an integer grid of whole psi; one oil in four has its temperature, API and GOR "
-    "given as Python ints. Non-trivial = the sorted sample has at least two pressures strictly below and two at/above "
+    "branches on a float64 grid, on an integer grid of whole psi and on a float32 grid (float32-level tolerances; Bo must "
+    "rise below and fall above p_b there too); one oil in four has its temperature, API and GOR given as Python ints, "
+    "one in three has all four parameters as numpy float64 scalars (as read from an array or DataFrame row); the "
+    "scalar-only Standing undersaturated compressibility is required positive up to 15000 psi above p_b. Non-trivial = the sorted sample has at least two pressures strictly below and two at/above "
     "p_b (so that every ordering oracle has something to compare). Distinct = hash of the case record."
 )
 ASSUMPTIONS = [
@@ -53,7 +55,7 @@ def check_case(case) -> Result:
 
     res = Result()
     o = case["oil"]
-    T, api, sg, gor = o["T"], o["api"], o["sg"], o["gor"]
+    T, api, sg, gor = gens.oil_tuple(o)
     pb = lib("pressure_bubblepoint_Standing", O.pressure_bubblepoint_Standing, T, api, sg, gor)
     if not (np.isfinite(pb) and pb > 50):
         res.skipped = "bubble point <= 50 psia (outside the property's domain)"
@@ -132,16 +134,26 @@ def check_case(case) -> Result:
             ordered("C12/fvf-falls-above", "Bo must fall with pressure above p_b", bo[k + 1], bo[k], p0, p1, bo[k])
     # ---- the same relations through the array branches (float64 grid and an integer grid of whole psi) --------
     grids = []
-    for label, arr in (("float64 array", np.array(ps, float)), ("int64 array", np.unique(np.array([int(round(q)) for q in ps if q >= 15.5], dtype=np.int64)))):
+    f32 = np.unique(np.array(ps, np.float32))
+    for label, arr, arel in (
+        ("float64 array", np.array(ps, float), 1e-12),
+        ("int64 array", np.unique(np.array([int(round(q)) for q in ps if q >= 15.5], dtype=np.int64)), 1e-12),
+        # single-precision pressures (the result is documented to be at least float32): float32-level tolerances
+        ("float32 array", f32[f32 >= 15.0], 3e-6),
+    ):
         # the pressures in ascending order, as a depletion path (descending) and in no particular order: the relations
         # are about the values, not about the order in which a caller lists them
         k = len(arr)
         orders = {"ascending": np.arange(k), "descending": np.arange(k)[::-1], "unordered": np.concatenate([np.arange(1, k, 2), np.arange(0, k, 2)[::-1]])}
+        if arel > 1e-9:
+            orders = {"ascending": orders["ascending"]}
         for oname, perm in orders.items():
-            grids.append((f"{label}, {oname}", arr, perm))
-    for label, arr, perm in grids:
+            grids.append((f"{label}, {oname}", arr, perm, arel))
+    for label, arr, perm, arel in grids:
         if arr.size < 2:
             continue
+        single = arel > 1e-9
+        sep = (1e-3 if single else 1e-6) * pb  # pressures this far apart must give strictly ordered values
         given = arr[perm].copy()
         inv = np.argsort(perm)
         rs_a = np.asarray(lib(f"solution_gor_Standing({label})", O.solution_gor_Standing, T, given, api, sg, gor), float)
@@ -152,23 +164,45 @@ def check_case(case) -> Result:
         if rs_a.shape != pa.shape or bo_a.shape != pa.shape or not (np.all(np.isfinite(rs_a)) and np.all(np.isfinite(bo_a))):
             res.bad("C12/finite", f"{label}: Rs / Bo not finite or wrong shape on {list(arr)[:6]}... oil={o}")
             continue
-        if np.any(np.diff(rs_a) < -1e-12 * gor):
+        if np.any(np.diff(rs_a) < -arel * gor):
             res.bad("C12/gor-non-decreasing", f"{label}: Rs not non-decreasing: {rs_a[:8]} on p={pa[:8]} oil={o}")
         above_a = pa >= pb
-        if np.any(rs_a[above_a] != gor):
+        if single:
+            if np.any(np.abs(rs_a[above_a] - gor) > arel * gor):
+                res.bad("C12/gor-equals-initial-above", f"{label}: Rs={rs_a[above_a][:4]} at/above p_b, Rsi={gor!r} oil={o}")
+        elif np.any(rs_a[above_a] != gor):
             res.bad("C12/gor-equals-initial-above", f"{label}: Rs={rs_a[above_a][:4]} at/above p_b, Rsi={gor!r} oil={o}")
         for q, r_ in zip(pa[~above_a], rs_a[~above_a]):
             back = float(lib("pressure_bubblepoint_Standing", O.pressure_bubblepoint_Standing, T, api, sg, float(r_)))
-            if not res.check("C12/gor-inverts-bubble-point", abs(back - q), 1e-10 * q, f"{label}: p_b(Rs(p))={back!r} for p={q!r} (Rs={r_!r}) oil={o};"):
+            if not res.check("C12/gor-inverts-bubble-point", abs(back - q), max(1e-10, 10 * arel if single else 0.0) * q, f"{label}: p_b(Rs(p))={back!r} for p={q!r} (Rs={r_!r}) oil={o};"):
                 break
         below_a = ~above_a
-        if below_a.sum() >= 2 and np.any(np.diff(bo_a[below_a]) <= 0) and np.min(np.diff(pa[below_a])) > 1e-6 * pb:
-            res.bad("C12/fvf-rises-below", f"{label}: Bo does not rise below p_b: {bo_a[below_a][:6]} oil={o}")
+        if below_a.sum() >= 2:
+            gaps, steps = np.diff(pa[below_a]), np.diff(bo_a[below_a])
+            if np.any(steps[gaps > sep] <= 0):
+                res.bad("C12/fvf-rises-below", f"{label}: Bo does not rise below p_b: {bo_a[below_a][:6]} on p={pa[below_a][:6]} oil={o}")
+        if above_a.sum() >= 2:
+            gaps, steps = np.diff(pa[above_a]), np.diff(bo_a[above_a])
+            if np.any(steps[gaps > sep] >= 0):
+                res.bad("C12/fvf-falls-above", f"{label}: Bo does not fall above p_b={pb!r}: {bo_a[above_a][:6]} on p={pa[above_a][:6]} oil={o}")
+        # the array branch follows the scalar curve (Bo of the scalar calls above, interpolation-free: same pressures)
+        if not single and label.startswith("float64") and form == "float":
+            res.check("C12/array-branch-on-the-scalar-curve", float(np.max(np.abs(bo_a - np.array(bo)) / np.array(bo))), 1e-12, f"{label}: Bo array vs scalar calls on {ps[:4]}... oil={o};")
     # the correlations are functions of their arguments only: another oil (other GOR, gravity, temperature) evaluated
     # in between must not change the values of this one
     pq = float(ps[len(ps) // 2])
     for name, fn in (("pressure_bubblepoint_Standing", lambda *a: O.pressure_bubblepoint_Standing(a[0], a[2], a[3], a[4])), ("solution_gor_Standing", O.solution_gor_Standing), ("b_o_Standing", O.b_o_Standing), ("viscosity_beggs_robinson", O.viscosity_beggs_robinson), ("density_Standing", O.density_Standing)):
         lib(name, history_independent, res, "C12/independent-of-call-history", fn, (T, pq, api, sg, gor), [(T, pq, api, sg, gor * 1.7), (T + 1e-3, pq, api, sg, gor), (T, 0.5 * pq, api + 2, sg * 1.01, gor), (T, pq, api, sg, gor + 1e-6 * gor)], name)
+    for p in above:
+        if form in ("0d-float64", "0d-int64") or p - pb > 15000.0:
+            # math.exp-based scalar correlation: plain numbers only.  The published formula has a pole 18118 psi above
+            # the bubble point (its denominator 7.141e-4 (p - p_b) - 12.938 changes sign there); it is a correlation
+            # for reservoir pressures and is only asserted up to 15000 psi above p_b
+            break
+        c_st = lib("c_o Standing", O.oil_compressibility_undersat_Standing, T, sc(p), api, sg, gor)
+        if not (np.isfinite(c_st) and c_st > 0):
+            res.bad("C12/positive", f"oil_compressibility_undersat_Standing={c_st!r} at p={p!r} (p_b={pb!r}) oil={o}")
+            break
     if min(mu) <= 0:
         res.bad("C12/positive", f"viscosity {min(mu)!r} <= 0 oil={o}")
     if co and min(co) <= 0:
